@@ -145,8 +145,10 @@ def coqchk_cached(timeout=5400):
     vos = sorted(tree_files(COQ, (".vo",)))
     h = hashlib.sha256()
     for v in vos:
-        st = os.stat(v)
-        h.update(("%s %d %d\n" % (v, st.st_size, int(st.st_mtime))).encode())
+        # by CONTENT, not by time stamp: every check recompiles its (tiny) property file to capture Print Assumptions,
+        # which rewrites an identical .vo with a new time
+        with open(v, "rb") as f:
+            h.update(("%s %s\n" % (os.path.relpath(v, COQ), hashlib.sha256(f.read()).hexdigest())).encode())
     key = h.hexdigest()
     stamp = os.path.join(BUILD, "coqchk.json")
     try:
